@@ -2,6 +2,7 @@ package main
 
 import (
 	"fmt"
+	"sort"
 	"go/types"
 	"strings"
 
@@ -105,7 +106,7 @@ func (fr *frame) call(v ssa.Value, c *ssa.CallCommon, st *State, site ssa.Instru
 			key = callee.Origin().String()
 		}
 	}
-	anchor := fr.nextAnchor(anchorName(key, c))
+	anchor := fr.callAnchor(anchorName(key, c), site)
 	fr.checkAsserts("call "+anchor, st)
 
 	// nil receiver check for invoke
@@ -782,4 +783,73 @@ func (fr *frame) frameGhostAt(key, idx string, st *State) {
 		alts = append(alts, eq(idx, d.idx))
 	}
 	fr.oblige("frame", "", fr.nextAnchor("ghost"), st, or(alts...), "ghost state "+key+" is modified at a key not listed in modifies", nil)
+}
+
+// callAnchor numbers the call sites of one callee in source order (not in the
+// order the encoder happens to visit blocks), so anchors are stable.
+func (fr *frame) callAnchor(name string, site ssa.Instruction) string {
+	if fr.callSites == nil {
+		fr.callSites = map[string][]ssa.Instruction{}
+		for _, b := range fr.fn.Blocks {
+			for _, ins := range b.Instrs {
+				var cc *ssa.CallCommon
+				switch x := ins.(type) {
+				case *ssa.Call:
+					cc = x.Common()
+				case *ssa.Defer:
+					cc = x.Common()
+				case *ssa.Go:
+					cc = x.Common()
+				}
+				if cc == nil {
+					continue
+				}
+				if _, isB := cc.Value.(*ssa.Builtin); isB {
+					continue
+				}
+				n := fr.anchorNameOf(cc)
+				fr.callSites[n] = append(fr.callSites[n], ins)
+			}
+		}
+		for n := range fr.callSites {
+			l := fr.callSites[n]
+			sort.SliceStable(l, func(i, j int) bool { return l[i].Pos() < l[j].Pos() })
+		}
+	}
+	for i, s := range fr.callSites[name] {
+		if s == site {
+			return fmt.Sprintf("%s:%d", name, i+1)
+		}
+	}
+	return fr.nextAnchor(name)
+}
+
+// anchorNameOf mirrors the callee resolution of call().
+func (fr *frame) anchorNameOf(c *ssa.CallCommon) string {
+	e := fr.enc
+	var callee *ssa.Function
+	key := ""
+	if c.IsInvoke() {
+		key = c.Method.FullName()
+		if mi, ok := c.Value.(*ssa.MakeInterface); ok {
+			if f := e.prog.LookupMethod(mi.X.Type(), c.Method.Pkg(), c.Method.Name()); f != nil {
+				if _, has := e.db.ByKey[key]; !has {
+					callee = f
+					key = f.String()
+				}
+			}
+		}
+	} else if f := c.StaticCallee(); f != nil {
+		callee = f
+		key = f.String()
+	} else if mc := fr.closureOf(c.Value); mc != nil {
+		callee = mc.Fn.(*ssa.Function)
+		key = callee.String()
+	}
+	if callee != nil && callee.Origin() != nil {
+		if _, ok := e.db.ByKey[key]; !ok {
+			key = callee.Origin().String()
+		}
+	}
+	return anchorName(key, c)
 }
